@@ -1009,7 +1009,7 @@ func init() {
 	ev.Register(&ev.Driver{
 		Prop:  "C17",
 		Level: "model_checking",
-		Rule: "explicit-state search over call histories on the real objects: every history up to depth D (quick 4, thorough 5 for the Writer's 13-symbol alphabet {Apply(BlockChecksum), Apply(Size 7), Apply(Concurrency 2), Apply(Legacy), Apply(Checksum false), Apply(Level1), Write 7 bytes, Write B+1 bytes, Write nil, ReadFrom 10 bytes, Flush, Close, Reset(next sink)}; quick 4, thorough 5 for the Reader's 13-symbol alphabet {Apply(Concurrency 2), Read 0/1/5/64K, WriteTo, Size, Reset(src) for six sources: frame with size field, frame with trailing bytes, two concatenated frames, empty, valid dependent-block frame, dependent-block frame reaching before the start}). " +
+		Rule: "explicit-state search over call histories on the real objects: every history up to depth D (quick 4, thorough 5 for the Writer's 13-symbol alphabet {Apply(BlockChecksum), Apply(Size 7), Apply(Concurrency 2), Apply(Legacy), Apply(Checksum false), Apply(Level1), Write 7 bytes, Write B+1 bytes, Write nil, ReadFrom 10 bytes, Flush, Close, Reset(next sink)}; quick 4, thorough 5 for the Reader's 14-symbol alphabet {Apply(Concurrency 2), Read 0/1/5/64K, WriteTo, Size, Reset(src) for seven sources: frame with size field, frame with trailing bytes, two concatenated frames, empty, valid dependent-block frame, dependent-block frame reaching before the start, legacy stream ending with the kernel's size trailer (histories through this one are judged for hangs, panics and by the Reset differential only: the property does not say whether such a stream is accepted)}). " +
 			"Each history runs as thread 0 of a controlled-scheduler execution (canonical schedule), so a call that never returns is a deadlock state; every call's results are compared with a reference model; after every Reset every suffix of <= 2 calls is compared with a brand-new object with the same options (differential). distinct_nontrivial = histories executed.",
 		Assumptions: []string{"after any call has returned an error the model only requires that nothing wrong is emitted/delivered until the next Reset",
 			"WriteTo after a partial Read may fail (the implementation refuses it) as long as nothing wrong is delivered",
